@@ -18,7 +18,9 @@ FP = os.path.join(common.VERIF, "contracts", "kernel_fingerprints.json")
 
 
 def list_units():
-    return {"kernels": {"props": ["C04"], "tier": "quick", "doc": __doc__}}
+    return {"kernels": {"props": ["C04"], "tier": "quick", "doc": __doc__},
+            "rust_statics": {"props": ["C18"], "tier": "quick", "doc": run_rust_statics.__doc__},
+            "c_cache_single_store": {"props": ["C18"], "tier": "quick", "doc": run_c_cache_single_store.__doc__}}
 
 
 def _sha(path):
@@ -28,7 +30,132 @@ def _sha(path):
     return h.hexdigest()
 
 
+IMMUTABLE_TY = ("&str", "&'static str", "&[u8]", "&'static [u8]", "u8", "u16", "u32", "u64", "usize", "bool", "i32", "i64")
+
+
+def run_rust_statics():
+    """Frame condition of C18 on the Rust side: the crate's own source (src/*.rs, test modules excluded) declares no
+    shared mutable state: no `static mut`, no `static` of a type with interior mutability, no `thread_local!` /
+    `lazy_static!`. The only statics are the ones the `cpufeatures::new!` macro of the dependency creates (the
+    idempotent feature-detection cache). Exhaustive token-level scan with the framework's own Rust tokenizer
+    (comments and string literals are not code); one obligation per source file."""
+    import glob
+    import sys
+    sys.path.insert(0, os.path.join(common.VERIF, "lib"))
+    import rstok
+    res = new_result("guard:rust_statics", "guard", level="proof")
+    files = sorted(glob.glob(os.path.join(common.REPO, "src", "*.rs")))
+    files = [f for f in files if os.path.basename(f) != "test.rs"]
+    res["cmd"] = "token scan of %d files src/*.rs (except test.rs) for static items" % len(files)
+    bad, unsure = [], []
+    for f in files:
+        rel = os.path.relpath(f, common.REPO)
+        try:
+            toks = [t for t in rstok.tokenize(open(f, encoding="utf-8").read()) if t.k not in ("ws", "comment")]
+        except Exception as e:
+            res["undecided_reason"] = "cannot tokenize %s: %s" % (rel, e)
+            return res
+        # skip `#[cfg(test)] mod ... { }` bodies
+        i, n = 0, len(toks)
+        skip_until = -1
+        while i < n:
+            t = toks[i]
+            if t.s == "#" and i + 6 < n and [x.s for x in toks[i:i + 7]] == ["#", "[", "cfg", "(", "test", ")", "]"]:
+                j = i + 7
+                while j < n and toks[j].s not in ("{", ";"):
+                    j += 1
+                if j < n and toks[j].s == "{":
+                    skip_until = rstok.match_close(toks, j)
+                    i = skip_until + 1
+                    continue
+            if t.k == "ident" and t.s == "static" and not (i > 0 and toks[i - 1].k == "lifetime"):
+                # `'static` is a lifetime token, never reaches here; this is a static item
+                nxt = toks[i + 1].s if i + 1 < n else ""
+                j = i + 1
+                while j < n and toks[j].s not in ("=", ";"):
+                    j += 1
+                decl = " ".join(x.s for x in toks[i:j])
+                ty = decl.split(":", 1)[1].strip().replace(" ", "") if ":" in decl else ""
+                if nxt == "mut":
+                    bad.append((rel, t.line, decl))
+                elif ty.replace("'static", "").replace(" ", "") in [x.replace(" ", "").replace("'static", "") for x in IMMUTABLE_TY] \
+                        or ty.startswith("[u8;") or ty.startswith("&[u8;"):
+                    pass
+                else:
+                    unsure.append((rel, t.line, decl))
+            if t.k == "ident" and t.s in ("thread_local", "lazy_static") and i + 1 < n and toks[i + 1].s == "!":
+                bad.append((rel, t.line, t.s + "!"))
+            i += 1
+    res["obligations"] = len(files)
+    badfiles = {b[0] for b in bad}
+    res["discharged"] = len(files) - len(badfiles)
+    res["functions_verified"] = ["%s (no shared mutable static)" % os.path.relpath(f, common.REPO) for f in files]
+    res["trusted_base"] = ["statics created by the dependency macro cpufeatures::new! (the feature-detection cache) are allowed",
+                           "the framework's tokenizer (lib/rstok.py)"]
+    res["samples"] = [{"file": os.path.relpath(f, common.REPO), "obligation": "declares no `static mut`, no interior-mutable "
+                       "static, no thread_local!/lazy_static!"} for f in files[:3]]
+    if bad:
+        res["status"] = "fail"
+        for rel, line, decl in bad[:5]:
+            res["failed"].append(failed_obligation("%s (static item)" % rel, "assigns",
+                                                   "shared mutable state introduced: `%s`" % decl[:120],
+                                                   location="%s:%d" % (rel, line),
+                                                   clause="no shared mutable state other than the feature-detection cache"))
+    elif unsure:
+        res["undecided_reason"] = "static item(s) of a type this scan cannot classify as immutable: " + "; ".join(
+            "%s:%d `%s`" % u for u in unsure[:5])
+    else:
+        res["status"] = "pass"
+    return res
+
+
+def run_c_cache_single_store():
+    """The C feature-detection cache is published exactly once per detection: c/blake3_dispatch.c contains exactly one
+    write to g_cpu_features (besides its initialiser), the final ATOMIC_STORE of the completed value; concurrent first
+    calls can then only observe UNDEFINED or the final value (what makes the cache idempotent under races; the CBMC unit
+    get_cpu_features proves the stored value is CPUID-derived, but sequential reasoning cannot see a second, partial
+    store). Exhaustive scan of the preprocessed-as-text source (comments removed); one obligation."""
+    import re
+    res = new_result("guard:c_cache_single_store", "guard", level="proof")
+    path = os.path.join(common.REPO, "c", "blake3_dispatch.c")
+    res["cmd"] = "scan of c/blake3_dispatch.c for writes to g_cpu_features"
+    try:
+        src = open(path, encoding="utf-8", errors="replace").read()
+    except OSError as e:
+        res["undecided_reason"] = str(e)
+        return res
+    src = re.sub(r"/\*.*?\*/", " ", src, flags=re.S)
+    src = re.sub(r"//[^\n]*", " ", src)
+    writes = []
+    for m in re.finditer(r"ATOMIC_STORE\s*\(\s*g_cpu_features\b|\bg_cpu_features\s*(?:\|=|&=|\^=|\+=|=(?!=))", src):
+        line = src.count("\n", 0, m.start()) + 1
+        text = src[m.start():src.find("\n", m.start())].strip()
+        if re.match(r"g_cpu_features\s*=\s*UNDEFINED", text):   # the initialiser
+            continue
+        writes.append((line, text))
+    res["obligations"] = 1
+    res["functions_verified"] = ["get_cpu_features (c/blake3_dispatch.c): single publication of the cache"]
+    res["samples"] = [{"obligation": "exactly one store to g_cpu_features", "stores": writes}]
+    res["trusted_base"] = ["textual scan (macros other than ATOMIC_STORE that might write the cache are not expanded)"]
+    if len(writes) == 1:
+        res["status"] = "pass"
+        res["discharged"] = 1
+    elif len(writes) == 0:
+        res["undecided_reason"] = "no store to g_cpu_features found (source shape changed)"
+    else:
+        res["status"] = "fail"
+        res["failed"].append(failed_obligation("get_cpu_features", "assigns",
+                                               "the feature cache is stored %d times per detection: %s" % (len(writes), writes[:3]),
+                                               location="c/blake3_dispatch.c:%d" % writes[0][0],
+                                               clause="g_cpu_features is published once, with the completed value"))
+    return res
+
+
 def run_unit(name, tier="quick"):
+    if name == "rust_statics":
+        return run_rust_statics()
+    if name == "c_cache_single_store":
+        return run_c_cache_single_store()
     res = new_result("guard:" + name, "guard", level="other")
     fps = json.load(open(FP))
     changed, missing = [], []
